@@ -1560,7 +1560,7 @@ def covariance(obs, visualize=False, correlation=False, smooth=None, **kwargs):
         plt.colorbar()
         plt.draw()
 
-    if correlation is True:
+    if correlation is True or (isinstance(correlation, np.bool_) and correlation):
         return corr
 
     errors = [o.dvalue for o in obs]
